@@ -15,6 +15,7 @@ PROP = dict(
         thorough=dict(cases=24000, shards=16, profiles=["debug", "release"]),
     )],
     model_targets=["Extract/Extract.vo"],
+    _vecerr=True,
     rule="state-aware random histories (20-90 ops) over create / append / write_at / truncate_write / truncate / rename / "
          "remove (with and without a second live handle) / retain / flush / region flush / compact / reopen / set_min_len / "
          "set_min_regions, sizes from {0,1,sub-page,4095/4096/4097,straddling,multi-doubling,>1 MiB}, 15% malformed requests; "
@@ -39,3 +40,24 @@ TEXT = dict(
 )
 
 ENGINES = []
+
+
+def _classify_vecerr(inp, obs, tags):
+    t = inp.split()
+    return [f"vec:{t[0]}", f"request:{t[2]}"] + list(tags), any(x.startswith("result:") and ":err:" in x for x in tags)
+
+
+PROP["engines"] = PROP["engines"] + [dict(
+    name="vecerr", classify=_classify_vecerr,
+    quick=dict(cases=320, shards=4, profiles=["debug"]),
+    thorough=dict(cases=16000, shards=16, profiles=["debug", "release"]),
+)]
+PROP["rule"] += (" || vecdb part (engine vecerr, implementation-only oracles): BytesVec/ZeroCopyVec/PcoVec/LZ4Vec brought into a "
+                 "generated state (stored values, raw: deleted slots with a holes region, buffered values, change records), then a "
+                 "refused request: checked_push at a wrong index, remove() while the data region is still held, plain import with a "
+                 "mismatching version, rollback with the change records deleted; every region's bytes, the change directory and the "
+                 "contents after re-import are compared before/after; non-trivial = the request was refused")
+ENGINES = [dict(name="vecerr", path="harness/src/eng_vecerr.rs + ocaml/eng_vecerr.ml", serves_properties=["C13"],
+                kind_free_text="implementation-only oracle: refused vecdb requests leave every region, the change directory and the re-imported contents unchanged")]
+TEXT["text"] = TEXT["text"].replace("The vecdb part (import mismatch, checked push, rollback without record) is covered by C14/C04/C16 engines as they land.",
+    "vecdb part: the refusals are theorems of the vector models (C14_plain_mismatch / C14_import_never_touches, C16_fail_single / C16_comp_fail_single, C03_step_refines for checked push) and engine vecerr checks on the real code that each refused request (checked push, remove of a held vector, mismatching import, rollback without record) leaves every region, the change directory and the re-imported contents unchanged.")
